@@ -48,7 +48,7 @@ for cid in sys.argv[1:]:
         if not demos:
             print(sid, "REJECT: no demo"); continue
         demo = demos[0]
-        race = "-race" in json.dumps(meta_in) or cid in ("C14", "C17")
+        race = bool(meta_in.get("race")) if "race" in meta_in else ("-race" in json.dumps(meta_in))
         A = fresh(); B = fresh()
         try:
             rc, o = sh("git init -q . && git apply --whitespace=nowarn %s" % diff, cwd=A)
